@@ -652,6 +652,22 @@ func verifAgeFile(name string) {
 	}
 }
 
+// verifAgeFiles: the k-th file (in the order given: name order) gets the k-th modification time the code asked for by name
+func verifAgeFiles(names []string) {
+	k := 0
+	for _, it := range verifDoc.Vector {
+		if it.Kind == "ext-int" && it.Tag == "mtime-by-name" {
+			if k >= len(names) {
+				return
+			}
+			if n, err := strconv.ParseInt(it.Val, 10, 64); err == nil {
+				os.Chtimes(names[k], time.Unix(0, n), time.Unix(0, n))
+			}
+			k++
+		}
+	}
+}
+
 // environment faults chosen by the solver that a native stand-in can act out. "ext-fail-on" records carry the input on
 // which the modelled operation failed (the model makes failure a deterministic function of the input), so natively the
 // stand-in fails on exactly those inputs.
